@@ -390,6 +390,12 @@ func (db *DB) insertOrUpdate(s *Schema, o Object, commit bool) (err error) {
 		return
 	}
 
+	// an object which cannot be serialized (i.e. NaN float) must
+	// be refused before it gets indexed, cached or queued
+	if _, err = json.Marshal(o); err != nil {
+		return
+	}
+
 	if err = s.index(o); err != nil {
 		return
 	}
@@ -917,6 +923,12 @@ func (db *DB) InsertOrUpdateMany(objects ...Object) (n int, err error) {
 		// validate object before insertion
 		if err = o.Validate(); err != nil {
 			err = validationErr(o, err)
+			return
+		}
+
+		// the object must be serializable otherwise insertion would
+		// fail after some objects have already been inserted
+		if _, err = json.Marshal(o); err != nil {
 			return
 		}
 
